@@ -18,6 +18,7 @@ func init() {
 			Assumptions: []string{"gRPC client stubs do not modify the request", "status.Code(err) is never OK for a non-nil error produced by gRPC", "math.Min / time.Duration conversion semantics"},
 			Trusted:     []string{"go/packages", "go/types", "go/ssa", "google.golang.org/grpc"},
 			RuleDoc: map[string]string{
+				"R9.state":   "no memory of earlier calls: on the call tree only frozen package-level variables are touched (known exceptions listed with reasons), and no package-level object is handed out",
 				"R1.order":   "forward range over the endpoint field; element handed to the per-endpoint call; early return on success with that call's results",
 				"R1.request": "request parameter passed unmodified; no store through it in the package",
 				"R1.ctor":    "constructor keeps endpoint order",
@@ -82,6 +83,7 @@ func runC17(c *Ctx) { runC17Core(c, true) }
 // runC17Core: the ordered fail-over rules of the signer (R1-R3), optionally with the backoff rules (R4). C18, whose
 // statement ends in "so a later genuine endpoint is still used", imports R1-R3 under a rule name of its own.
 func runC17Core(c *Ctx, withBackoff bool) {
+	stateRule(c, "R9.state", []*ssa.Function{c.w.Method(crypkiPkg, "Signer", "Sign"), c.w.Func(crypkiPkg, "NewSigner"), c.w.Method("internal/backoff", "Config", "Backoff"), c.w.Func("tlsutils", "TLSClientConfiguration")}, knownState)
 	w := c.w
 	// signer type: implements csr.Signer
 	var sign *ssa.Function
@@ -621,6 +623,29 @@ func runC17Core(c *Ctx, withBackoff bool) {
 				if a.Kind == "write" || a.Kind == "addr" || a.Kind == "addrcall" {
 					c.Check(a.Fn == ns, "R1.ctor", "writer of "+endpointField+" "+shortFn(a.Fn), w.Pos(a.Instr.Pos()), "written by the constructor only", "the endpoint list is modified outside the constructor")
 				}
+			}
+		}
+		// ... and so is every other field: a signing call leaves nothing behind in the signer (a remembered endpoint index, a
+		// kept connection) that the next call would start from instead of the head of the configured list
+		if st, ok := owner.Underlying().(*types.Struct); ok {
+			nW := 0
+			for i := 0; i < st.NumFields(); i++ {
+				fld := st.Field(i).Name()
+				if fld == endpointField {
+					continue
+				}
+				for _, a := range w.FieldAccesses(owner, fld) {
+					if a.Kind == "write" || a.Kind == "addr" || a.Kind == "addrcall" || a.Kind == "mapwrite" || a.Kind == "mapdelete" {
+						ctorSide := a.Fn == ns || w.inTree(ns, a.Fn)
+						if !ctorSide {
+							nW++
+						}
+						c.Check(ctorSide, "R9.state", "writer of "+fld+" "+shortFn(a.Fn), w.Pos(a.Instr.Pos()), "written while the signer is constructed only", "the signer's field "+fld+" is written (or handed out by address) by "+shortFn(a.Fn)+": state kept from one signing call to the next")
+					}
+				}
+			}
+			if nW == 0 {
+				c.Ok("R9.state", "Signer|fields written by the constructor only", w.FnPos(ns), itoa(st.NumFields())+" fields")
 			}
 		}
 	} else {
